@@ -1097,6 +1097,21 @@ func OpenedWithoutPrivate(store db.DB, id string, pub []byte, js []byte) []strin
 			keys["public-crypto-key"] = &ck
 		}
 	}
+	// the private master key's parameters must not verify for a passphrase everybody knows: the empty one, the
+	// public one
+	trivial := map[string][]byte{"the-empty-passphrase": {}, "the-public-passphrase": append([]byte{}, pub...)}
+	tryParams := func(where string, params []byte) {
+		for name, cand := range trivial {
+			var mp snacl.SecretKey
+			c := append([]byte{}, cand...)
+			if mp.Unmarshal(params) == nil && mp.DeriveKey(&c) == nil {
+				out = append(out, where+" derives with "+name)
+				k := *mp.Key
+				keys["scrypt-key-of-"+name+"("+where+")"] = &k
+			}
+		}
+	}
+	tryParams("store:mpriv", kv["mpriv"])
 	blobs := map[string][]byte{"store:cpriv": kv["cpriv"], "store:mhdpriv": kv["mhdpriv"]}
 	// account row: <type><len><encpub><len><encpriv>
 	for name, v := range kv {
@@ -1122,9 +1137,13 @@ func OpenedWithoutPrivate(store db.DB, id string, pub []byte, js []byte) []strin
 			Crypto struct {
 				M string `json:"masterHDPrivKeyEnc"`
 				C string `json:"cryptoKeyPrivEnc"`
+				P string `json:"privParams"`
 			} `json:"crypto"`
 		}
 		if json.Unmarshal(js, &f) == nil {
+			if b, err := hex.DecodeString(f.Crypto.P); err == nil {
+				tryParams("export:privParams", b)
+			}
 			if b, err := hex.DecodeString(f.Crypto.M); err == nil {
 				blobs["export:masterHDPrivKeyEnc"] = b
 			}
